@@ -489,3 +489,48 @@ func init() {
 		Outside: []string{"outside (not encodable): the JSON/YAML round-trip clause of C17 - encoding/json and yaml.v3 are reflection-driven libraries that the VM does not execute; keys longer than L; hash maps with more than 2 entries in FromMap; Map[string,uint64] and Set[string] instantiations only"},
 	})
 }
+
+func init() {
+	c01 := func(p map[string]int, diff int) HarnessRun {
+		return HarnessRun{Entry: "VerifC01Snapshots", Params: p, Covers: []string{"C01.committed", "C01.aborted", "C01.end"}, DiffRuns: diff}
+	}
+	step := HarnessRun{Entry: "VerifC01LpmEntryStep", Covers: []string{"C01.lpmentry.upsert", "C01.lpmentry.delete", "C01.lpmentry.end"}, DiffRuns: 30}
+	reg(&CheckSpec{
+		ID: "C01", PkgDir: "statedb",
+		Quick: []HarnessRun{
+			c01(map[string]int{"N": 1, "PRE": 2, "OPMAX": 2}, 30),
+			c01(map[string]int{"N": 2, "PRE": 2, "OPMAX": 1}, 30),
+			c01(map[string]int{"N": 2, "PRE": 5, "OPMAX": 1}, 10),
+			c01(map[string]int{"N": 2, "PRE": 1, "OPMAX": 1, "LPM": 0, "SYMQ": 1}, 10),
+			step,
+		},
+		Thorough: []HarnessRun{
+			c01(map[string]int{"N": 3, "PRE": 2, "OPMAX": 1}, 30),
+			c01(map[string]int{"N": 2, "PRE": 2, "OPMAX": 2}, 30),
+			c01(map[string]int{"N": 2, "PRE": 6, "OPMAX": 1}, 10),
+			c01(map[string]int{"N": 3, "PRE": 0, "OPMAX": 1, "LPM": 0, "SYMQ": 1, "L": 2}, 10),
+			step,
+		},
+		Known: []KnownProbe{{ID: "KF-lpm-tail-alias", Entry: "VerifC01LpmEntryStep"}},
+		Outside: []string{"outside: concurrent (preemptive) readers - snapshots are taken sequentially before/while/after each write transaction (a ReadTxn is a single atomic load, so sequential placement is exact for readers; instruction-level interleavings inside the writer are covered only by C02's observer); graveyard collection running between steps; more than N writes after PRE concrete pre-state objects; weak-memory effects",
+			"queries: full iteration through every index (primary, non-unique multi-key, non-unique LPM, revision) plus point queries with concrete keys (SYMQ=1: symbolic primary query key)"},
+	})
+	c03 := func(n, l, ops, focus, diff int) HarnessRun {
+		return HarnessRun{Entry: "VerifC03Driver", Params: map[string]int{"N": n, "L": l, "OPS": ops, "FOCUS": focus}, Covers: []string{"C03.end"}, DiffRuns: diff}
+	}
+	// OPS bits: 1 insert 2 delete 4 CAS 8 CAD 16 modify 32 commit 64 abort 128 deleteall 256 insertwatch 512 wrong-table 1024 closed-txn
+	all := (1 << 11) - 1
+	core := 1 | 2 | 4 | 8 | 32 | 64
+	reg(&CheckSpec{
+		ID: "C03", PkgDir: "statedb",
+		Quick:    []HarnessRun{c03(2, 1, all, 3, 40), c03(3, 1, core, 3, 40)},
+		Thorough: []HarnessRun{c03(3, 1, all, 3, 60), c03(2, 2, all, 3, 40), c03(4, 1, 1|2|4|32|64, 3, 40)},
+		Outside:  []string{"outside: more than N operations per history, keys longer than L, primary keys >= 64 KiB; one table plus one foreign table; for a finished transaction only Insert/Modify/Delete/CompareAndSwap/CompareAndDelete are asserted to return ErrTransactionClosed (as the statement names them)"},
+	})
+	reg(&CheckSpec{
+		ID: "C09", PkgDir: "statedb",
+		Quick:    []HarnessRun{c03(2, 1, all, 9, 40), c03(3, 1, core, 9, 40)},
+		Thorough: []HarnessRun{c03(3, 1, all, 9, 60), c03(2, 2, all, 9, 40), c03(4, 1, 1|2|4|32|64, 9, 40)},
+		Outside:  []string{"outside: revision wrap-around at 2^64; concurrent writers on other tables (sequential histories only; table revisions are per-table state under the table lock, see C05)"},
+	})
+}
